@@ -7,7 +7,7 @@ from ..cfg import CFG
 from ..core import AnalysisError, own_nodes, short, unparse
 from ..modelfacts import ModelFacts
 from ..oracles import content_model as oracle
-from ..rules import atomic, dsp, lint
+from ..rules import shape, atomic, dsp, lint
 from . import common
 
 EXPLANATION = (
@@ -299,4 +299,8 @@ def run(ctx):
   from ..selfcheck import lint_a_fixture_matches
   ctx.check(lint_a_fixture_matches(), "LINT-a", "fixture|discarded-map-is-detected", "ttverif/fixtures/lint_a.py",
             "the rule still matches its positive fixture", "LINT-a no longer matches its positive fixture (rule broken)")
+  ni = 0
+  for q in ("ttconv.model:ContentElement.remove_child", "ttconv.model:ContentElement.push_child", "ttconv.model:ContentElement.set_doc"):
+    ni += shape.check_independent_updates(ctx, ctx.ix.func(q))
+  ctx.note(f"INDEP: {ni} if/elif chains in the link-update methods")
   common.check_history_independence(ctx, ["ttconv.model", "ttconv.style_properties"])
